@@ -19,8 +19,8 @@
 (* file, {} first -- consume every event.  Independently of that, the      *)
 (* property predicates are evaluated on the events alone (MONITOR record): *)
 (*   answered  every written call got a successful reply and (unless it is *)
-(*             an Introspect) its handler ran from Start to End; nothing   *)
-(*             is pending at quiescence              (C30; C29 with spawn) *)
+(*             an Introspect / Ping) its handler ran from Start to End;    *)
+(*             nothing is pending at quiescence      (C30; C29 with spawn) *)
 (*   ordered   for a spawn-disabled interface: of two method calls whose    *)
 (*             handlers ran, the one written first ran first and had       *)
 (*             returned before the other started                     (C29) *)
@@ -57,7 +57,7 @@ Answered ==
   /\ Ev[Len(Ev)].e = "Quiescent" /\ Pending = {}
   /\ \A k \in Written : /\ IF NoReply(KindOf(k)) THEN Count("Reply", k) = 0
                                                      ELSE Count("Reply", k) = 1 /\ Ev[Idx("Reply", k)].ok
-                        /\ KindOf(k) # "intro" => Count("Start", k) = 1 /\ Count("End", k) = 1
+                        /\ KindOf(k) \notin {"intro", "ping"} => Count("Start", k) = 1 /\ Count("End", k) = 1
 SeqWritten == IF scn.spawn THEN {} ELSE {k \in Written : KindOf(k) \in UserKinds}
 \* (a call that never started -- lost or stuck -- is `answered`'s business, not an ordering failure)
 Ordered == \A j, k \in SeqWritten : (j < k /\ Has("Start", j) /\ Has("Start", k)) =>
